@@ -776,6 +776,34 @@ pub fn gen_ops(rng: &mut SimRng, thorough: bool) -> Vec<Op> {
 	ops
 }
 
+/// Workload for the pool clause of C13: submissions sitting exactly on the maturity / lock-height
+/// thresholds, blocks that move the thresholds, and reorgs that change which fork they refer to.
+pub fn gen_ops_c13(rng: &mut SimRng, thorough: bool) -> Vec<Op> {
+	let n = if thorough { rng.range(24, 48) } else { rng.range(16, 30) };
+	let mut ops = vec![];
+	for _ in 0..n {
+		let k = rng.below(100);
+		let op = if k < 60 {
+			let kind = match rng.below(10) {
+				0 | 1 => Submit::ImmatureCoinbase,
+				2 | 3 | 4 => Submit::JustMatureCoinbase,
+				5 | 6 => Submit::LockFuture,
+				7 | 8 => Submit::LockNext,
+				_ => Submit::Valid,
+			};
+			Op::Submit { kind, stem: rng.chance(1, 4), r: rng.next_u64() }
+		} else if k < 72 {
+			Op::MinePool { r: rng.next_u64() }
+		} else if k < 84 {
+			Op::MineEmpty { r: rng.next_u64() }
+		} else {
+			Op::Reorg { depth: rng.range(1, 3), r: rng.next_u64() }
+		};
+		ops.push(op);
+	}
+	ops
+}
+
 pub fn build_world(seed: u64) -> Result<(World, usize), String> {
 	let mut r = SimRng::new(seed).fork("cfg");
 	let mut cfg = WorldCfg::draw(&mut r, true);
@@ -814,6 +842,53 @@ pub fn run_ops(world: &mut World, start: usize, ops: &[Op], tag: &str, acc: Opti
 	let (steps, log) = (sim.step, sim.log.clone());
 	sim.destroy();
 	(v, digest, log, steps)
+}
+
+/// Pool clause of C13: only the accept / refuse answers for the threshold submissions are judged
+/// here (the pool's own invariants are C14's business and are merely counted).
+pub fn case_c13(tier: &str, seed: u64, case: u64) -> CaseResult {
+	let t0 = Instant::now();
+	let thorough = tier == "thorough";
+	let mut res = CaseResult::new(case, seed);
+	let (mut world, start) = match build_world(seed) {
+		Ok(w) => w,
+		Err(e) => {
+			res.harness_error = Some(format!("pool world: {}", e));
+			return res;
+		}
+	};
+	let runs = if thorough { 12 } else { 4 };
+	let rng = SimRng::new(seed);
+	for run in 0..runs {
+		let mut rr = rng.fork(&format!("pool13-{}", run));
+		let ops = gen_ops_c13(&mut rr, thorough);
+		let (v, digest, log, steps) = run_ops(&mut world, start, &ops, &format!("pool13-c{}r{}", case, run), Some(&mut res));
+		res.runs += 1;
+		res.steps += steps;
+		res.run_digests.push((digest, true));
+		for o in &ops {
+			if let Op::Submit { kind, .. } = o {
+				res.fault(&format!("pool-submit:{:?}", kind));
+			}
+		}
+		res.extra.insert("poolsim_runs".into(), json!(res.runs));
+		if let Some(v) = v {
+			let relevant = ["ImmatureCoinbase", "JustMatureCoinbase", "LockFuture", "LockNext"].iter().any(|k| v.key == format!("C14:submit-result:{}", k));
+			if relevant {
+				res.violations.push(Violation {
+					key: v.key.replace("C14:submit-result:", "C13:pool-answer:"),
+					what: format!("pool clause: {}", v.what),
+					replay: json!({"engine": "poolsim", "property": "C13", "case_seed": seed, "ops": serde_json::to_value(&ops).unwrap(), "log": log.iter().rev().take(6).cloned().collect::<Vec<_>>()}),
+				});
+				break;
+			} else {
+				res.probe("pool_invariant_violation_left_to_C14");
+			}
+		}
+	}
+	world.cleanup();
+	res.wall_s = t0.elapsed().as_secs_f64();
+	res
 }
 
 pub fn case(tier: &str, seed: u64, case: u64) -> CaseResult {
